@@ -22,6 +22,7 @@ macro_rules! make_shared {
             }
         }
 
+        #[cfg(not(feature = "verif"))]
         impl $shared_ty {
             pub fn read(&self) -> parking_lot::RwLockReadGuard<'_, $inner_ty> {
                 self.0.read()
@@ -30,6 +31,29 @@ macro_rules! make_shared {
             pub fn write(&self) -> parking_lot::RwLockWriteGuard<'_, $inner_ty> {
                 self.0.write()
             }
+        }
+
+        // With the verification hooks on, the guards report acquisition and release to the lock tap.
+        #[cfg(feature = "verif")]
+        impl $shared_ty {
+            pub fn read(
+                &self,
+            ) -> $crate::verif::locktap::Tapped<parking_lot::RwLockReadGuard<'_, $inner_ty>> {
+                $crate::verif::yield_point();
+                let guard = self.0.read();
+                $crate::verif::locktap::Tapped::shared(guard, false)
+            }
+
+            pub fn write(
+                &self,
+            ) -> $crate::verif::locktap::Tapped<parking_lot::RwLockWriteGuard<'_, $inner_ty>> {
+                $crate::verif::yield_point();
+                let guard = self.0.write();
+                $crate::verif::locktap::Tapped::shared(guard, true)
+            }
+        }
+
+        impl $shared_ty {
 
             pub fn strong_count(&self) -> usize {
                 std::sync::Arc::strong_count(&self.0)
